@@ -143,3 +143,54 @@ Theorem structure_facts :
   /\ call_queue_gets_job_reducers_result_queue_gets_result_reducers = true
   /\ call_item_records_and_restores_pickler_name = true.
 Proof. repeat split; reflexivity. Qed.
+
+(* ---- how a queue (and the reducers it was created with) reaches a worker: __getstate__ ships a tuple of attributes, __setstate__
+   installs them; attribute lists generated from loky/backend/queues.py ---- *)
+Section QueueState.
+  Variable V : Type.
+  Definition qobj := string -> option V.
+  Definition ship (fs : list string) (o : qobj) : list (option V) := map o fs.
+  Fixpoint install (fs : list string) (vs : list (option V)) (o : qobj) : qobj :=
+    match fs, vs with
+    | f :: fs', v :: vs' => install fs' vs' (fun x => if String.eqb x f then v else o x)
+    | _, _ => o
+    end.
+  Lemma install_other fs : forall vs o f, ~ In f fs -> install fs vs o f = o f.
+  Proof.
+    induction fs as [|g fs IH]; intros vs o f N; [reflexivity|]. destruct vs as [|v vs]; [reflexivity|]. simpl.
+    rewrite IH by (intros X; apply N; right; exact X).
+    destruct (String.eqb f g) eqn:E; [|reflexivity]. apply String.eqb_eq in E. exfalso. apply N. left. symmetry. exact E.
+  Qed.
+  Lemma state_round_trip fs : NoDup fs -> forall o o0 f, In f fs -> install fs (ship fs o) o0 f = o f.
+  Proof.
+    induction 1 as [|g fs Ng _ IH]; intros o o0 f I; [destruct I|]. simpl. destruct I as [E|I].
+    - subst g. rewrite install_other by exact Ng. rewrite String.eqb_refl. reflexivity.
+    - apply IH. exact I.
+  Qed.
+End QueueState.
+
+Fixpoint nodupb (l : list string) : bool :=
+  match l with [] => true | x :: r => negb (existsb (String.eqb x) r) && nodupb r end.
+Lemma nodupb_sound l : nodupb l = true -> NoDup l.
+Proof.
+  induction l as [|x r IH]; intros H; [constructor|]. simpl in H. apply andb_prop in H as [A B]. constructor; [|apply IH, B].
+  intros I. apply negb_true_iff in A. assert (X : existsb (String.eqb x) r = true) by (apply existsb_exists; exists x; split; [exact I | apply String.eqb_refl]).
+  congruence.
+Qed.
+
+(* every attribute a queue ships arrives in the worker's copy unchanged (Queue = call queue, SimpleQueue = result queue); the result
+   queue -- the one a worker WRITES to -- ships its reducers.  (The call queue is only read in the worker: whether it ships its reducers
+   is immaterial, and not claimed.) *)
+Theorem reducers_travel_with_the_queue (V : Type) :
+  queue_state_installed = queue_state_shipped /\ simple_queue_state_installed = simple_queue_state_shipped
+  /\ In "_reducers" simple_queue_state_shipped
+  /\ (forall (o o0 : qobj V) f, In f queue_state_shipped -> install V queue_state_installed (ship V queue_state_shipped o) o0 f = o f)
+  /\ (forall (o o0 : qobj V) f, In f simple_queue_state_shipped -> install V simple_queue_state_installed (ship V simple_queue_state_shipped o) o0 f = o f).
+Proof.
+  assert (E1 : queue_state_installed = queue_state_shipped) by reflexivity.
+  assert (E2 : simple_queue_state_installed = simple_queue_state_shipped) by reflexivity.
+  split; [exact E1|]. split; [exact E2|].
+  split; [vm_compute; tauto|]. split.
+  - intros o o0 f I. rewrite E1. apply state_round_trip; [apply nodupb_sound; vm_compute; reflexivity | exact I].
+  - intros o o0 f I. rewrite E2. apply state_round_trip; [apply nodupb_sound; vm_compute; reflexivity | exact I].
+Qed.
